@@ -57,6 +57,7 @@ return weights
 def check(run, M, tier):
     run.rule("E1", "Sense(mps, coord, weights, ishape, coil_batch_size) with tseg=None, comm=None, transp_nufft=False returns P * F * S resp. the Vstack(axis=0) of per-batch Sense operators on every path")
     run.rule("E2", "SenseRecon / L1WaveletRecon / TotalVariationRecon: y * weights**0.5 with the weights given to Sense; one shared preamble; regulariser wiring (W, lamda) / (G, lamda) into LinearLeastSquares")
+    run.rule("E4", "the recon constructors and Sense never write the caller's k-space, maps, weights or coordinates (interprocedural effect analysis)")
     run.rule("E3", "_estimate_weights returns the sampling mask (rss over the coil axis > 0) only when neither weights nor coord are given")
     run.assume("quantifier of the property: tseg = None, comm = None, transp_nufft = False (the other settings are outside C16)")
     alg = LinAlg(M)
@@ -88,6 +89,8 @@ def check(run, M, tier):
     # what the batched branch does not forward (outside the property's quantifier): INFO
     run.info("Sense's coil-batching branch does not forward tseg and transp_nufft to the per-batch operators (outside C16's quantifier)")
 
+    # ---- E4
+    _e4(run, M)
     # ---- E3
     fw = M.func("sigpy.mri.app._estimate_weights")
     cw = [o for o in VN(M, fw).run(fw.body, State()) if o.status == "return"]
@@ -169,6 +172,27 @@ def check(run, M, tier):
         run.check(ok and okg, "E2", "TotalVariationRecon wiring[%s]" % cond_text(o.conds)[:40], ft.loc(),
                   "G = FiniteDifference(A.ishape), proxg = L1Reg(G.oshape, lamda), g = lamda*sum|.|, all passed to LinearLeastSquares",
                   "TotalVariationRecon wires G=%s, proxg=%s" % (_show(G), _show(o.env.get("__kw_proxg"))), stmt="E2:tv:%s" % cond_text(o.conds))
+
+
+def _e4(run, M):
+    """the recon constructors (and the helpers they call) only read the arrays they are given: k-space, maps, weights and coordinates of the
+    caller are never written (a second recon built from the same arrays must see the same data)"""
+    from ..effects import Effects
+    eff = Effects(M)
+    for cname in ("SenseRecon", "L1WaveletRecon", "TotalVariationRecon"):
+        f = M.func("sigpy.mri.app.%s.__init__" % cname)
+        sm = eff.of(f.qual)
+        hit = sorted(p for p in sm.mut if p in ("y", "mps", "weights", "coord"))
+        if not hit:
+            run.ok("E4", cname + ".__init__", "no write reaches y, mps, weights or coord", f.loc())
+        for p in hit:
+            for node, why in sm.detail.get(("P", p), [])[:1]:
+                run.bad("E4", cname + ".__init__", f.loc(node), "%s.__init__ modifies the caller's array `%s`: %s (the same k-space handed to a second reconstruction is "
+                        "already scaled, so that reconstruction minimises a different objective)" % (cname, p, why), stmt="E4:%s:%s" % (cname, p))
+    g = M.func("sigpy.mri.linop.Sense")
+    sm = eff.of(g.qual)
+    hit = sorted(p for p in sm.mut if p in ("mps", "weights", "coord"))
+    run.check(not hit, "E4", "linop.Sense", g.loc(), "no write reaches mps, weights or coord", "Sense modifies its argument(s) %s in place" % hit, stmt="E4:Sense")
 
 
 def _kwarg_of(term, fname, kw):
